@@ -89,7 +89,7 @@ theorem readAt_of_no_later {m : VMap} (hu : Uniq m) {ver t : Nat} (hb : VersBoun
 
 /-- **`Rollback(t)`** preserves the representation, with the versioned map cut back to `t` -/
 theorem Rep.rollback {K : Bytes → Prop} (hK : WFKeys K) {db : DB} {m : VMap} {ver : Nat} (h : Rep K db m ver)
-    {t : Nat} (ht1 : 1 ≤ t) (ht : t < ver) :
+    {t : Nat} (ht : t < ver) :
     Rep K (applyBatch db ((pruneWindow db (t + 1) ver).1 ++ rollbackPatch db t (pruneWindow db (t + 1) ver).2))
       (m.rollback t) t := by
   rw [pruneWindow_eq]
@@ -229,6 +229,7 @@ theorem Rep.rollback {K : Bytes → Prop} (hK : WFKeys K) {db : DB} {m : VMap} {
           · exact hwt
           · exact absurd ((hkeys k).mpr ⟨w', y, hy, by omega⟩) hin
         rw [this]
+        simp
     · rw [batchLookup_map_none keys (patchOp db t) (mkKey (lssPrefix ++ k) w)
         (fun a _ => by rw [patchOp_key]; exact fun e => hwm (lkey_inj (Nat.le_refl _) hw e).2.symm)]
       simp only
